@@ -144,9 +144,13 @@ func (m *Machine) sysIntrinsics() {
 			m.event("astore")
 			return nil
 		},
+		// sync.RWMutex with Go's writer preference: a pending Lock blocks new RLocks (so a
+		// recursive read lock deadlocks when a writer arrives in between, as in the real runtime)
 		"(*sync.RWMutex).Lock": func(m *Machine, fr *frame, a []value) value {
 			s := mu(a[0].(*value))
+			s.pendingW++
 			m.block(func() bool { return !s.locked && s.readers == 0 })
+			s.pendingW--
 			s.locked = true
 			m.acquire(s)
 			m.acquire(&s.readers)
@@ -163,7 +167,7 @@ func (m *Machine) sysIntrinsics() {
 		},
 		"(*sync.RWMutex).RLock": func(m *Machine, fr *frame, a []value) value {
 			s := mu(a[0].(*value))
-			m.block(func() bool { return !s.locked })
+			m.block(func() bool { return !s.locked && s.pendingW == 0 })
 			s.readers++
 			m.acquire(s)
 			m.event("rlock")
